@@ -107,86 +107,129 @@ def run(model, rep):
               'no unsafe option besides the documented literal removal', 'awslambda without entrypoint enables %s' % (extra or 'global renaming'), key='C01.DEF|awslambda')
     rep.floor('C01.DEF', 16)
 
-    # ---------------- PIPE
-    F = P.F
-
-    def did(st_facts, name):
-        return st_facts is not None and (('<did:%s>' % name, True) in st_facts)
-    order = [('add_parent', ['ast.parse']), ('add_namespace', ['ast.parse', 'add_parent']), ('bind_names', ['add_parent', 'add_namespace']), ('resolve_names', ['bind_names']),
+    # ---------------- PIPE: minify() itself is evaluated with every stage replaced by a recorder (pmstatic.apirun); no shape of minify() is assumed
+    from .. import apirun
+    from ..callgraph import CallGraph, Effects
+    options = [p for p in mi.params if p not in ('source', 'filename', 'preserve_locals', 'preserve_globals')]
+    all_on = {p: True for p in options}
+    runs = {'every option on': apirun.run(model, kwargs=all_on, fresh_modules=True), 'default options': apirun.run(model, kwargs={}, fresh_modules=True),
+            'every option off': apirun.run(model, kwargs={p: False for p in options}, fresh_modules=True)}
+    callables = apirun.imported_callables(model)
+    transformers = [n for n, (k, _q) in callables.items() if k == 'stage']
+    order = [('add_parent', ['<parse>']), ('add_namespace', ['<parse>', 'add_parent']), ('bind_names', ['add_parent', 'add_namespace']), ('resolve_names', ['bind_names']),
              ('allow_rename_locals', ['resolve_names']), ('allow_rename_globals', ['resolve_names']), ('rename', ['allow_rename_locals', 'allow_rename_globals', 'resolve_names']),
-             ('unparse', ['rename'])]
-    transformers = [s for s in P.stages if s.kind == 'transformer']
-    for st in transformers:
-        ok = st.facts is None or (did(st.facts, 'add_parent') and did(st.facts, 'add_namespace'))
-        rep.check(ok, 'C01.PIPE', mi.loc(st.call), '%s after add_parent, add_namespace' % st.name, 'transforms read parent / namespace links', 'transform %s runs before the tree is annotated with parents and namespaces' % st.name, key='C01.PIPE|pre|' + st.name)
-    for name, preds in order:
-        st = P.stage(name)
-        for p in preds:
-            rep.check(did(st.facts, p), 'C01.PIPE', mi.loc(st.call), '%s after %s' % (name, p), 'dominated on every path', '%s can run before %s has completed' % (name, p), key='C01.PIPE|%s<%s' % (p, name))
-    for opt_stage, preds in (('rename_literals', ['resolve_names', 'allow_rename_locals', 'allow_rename_globals']), ('remove_no_arg_exception_call', ['resolve_names']), ('remove_posargs', ['rename'])):
-        hits = [s for s in P.stages if s.name == opt_stage]
-        for st in hits:
-            if st.facts is None:
+             ('unparse', ['rename']), ('rename_literals', ['resolve_names', 'allow_rename_locals', 'allow_rename_globals']), ('remove_no_arg_exception_call', ['resolve_names']),
+             ('remove_posargs', ['rename'])]
+    for label, r in sorted(runs.items()):
+        if r.outcome[0] != 'return':
+            raise AnalysisError('UNDECIDED: minify() with %s -> %s' % (label, r.outcome))
+        seq = [('<parse>' if t[0] == 'parse' else t[1]) for t in r.trace if t[0] in ('parse', 'stage', 'call')]
+        pos = {}
+        for i_, n_ in enumerate(seq):
+            pos.setdefault(n_, i_)
+        for name, preds in order:
+            if name not in pos:
+                if name in ('add_parent', 'add_namespace', 'bind_names', 'resolve_names', 'allow_rename_locals', 'allow_rename_globals', 'rename', 'unparse'):
+                    rep.violation('C01.PIPE', mi.loc(), '%s: %s' % (label, name), 'stage %s does not run' % name, key='C01.PIPE|%s|missing|%s' % (label, name))
                 continue
-            for p in preds:
-                rep.check(did(st.facts, p), 'C01.PIPE', mi.loc(st.call), '%s after %s' % (opt_stage, p), 'dominated on every path', '%s can run before %s' % (opt_stage, p), key='C01.PIPE|%s<%s' % (p, opt_stage))
-            if opt_stage == 'rename_literals':
-                rn = P.stage('rename')
-                rep.check(rn.facts is not None and not did(st.facts, 'rename'), 'C01.PIPE', mi.loc(st.call), 'rename_literals before rename', 'hoisted bindings are named by the renamer',
-                          'literals are hoisted after names have been assigned', key='C01.PIPE|rename_literals<rename')
-    # no tree-rewriting transform after names were bound (they would invalidate the binding tables), except the enumerated late stages
-    for st in P.stages:
-        if st.kind == 'transformer' and st.facts is not None and did(st.facts, 'bind_names'):
-            rep.violation('C01.PIPE', mi.loc(st.call), src(st.call)[:60], 'a tree transform runs after names were bound: nodes it creates or removes are unknown to the binding tables', key='C01.PIPE|late|' + st.name)
-    # the returned text is the printer's result
-    up = P.stage('unparse')
-    for (ret, facts) in F.returns:
-        names = {n.id for n in ast.walk(ret.value) if isinstance(n, ast.Name)} if ret.value is not None else set()
-        var = [t.id for t in getattr(P.m.parent(up.call), 'targets', []) if isinstance(t, ast.Name)]
-        rep.check(bool(var) and var[0] in names and did(facts, 'unparse'), 'C01.PIPE', mi.loc(ret), 'return ' + src(ret.value), 'returns the text unparse() produced', 'minify returns something other than the printed module', key='C01.PIPE|return|' + src(ret.value))
-    # the module object threaded through: every transformer call re-assigns `module` from its own result and receives `module`
-    for st in P.stages:
-        if st.kind == 'transformer':
-            par = P.m.parent(st.call)
-            ok = isinstance(par, ast.Assign) and src(par.targets[0]) == 'module' and len(st.call.args) == 1 and src(st.call.args[0]) == 'module'
-            rep.check(ok, 'C01.PIPE', mi.loc(st.call), src(par)[:60] if par is not None else src(st.call), 'module = T()(module)', 'transform result is dropped or applied to a different tree', key='C01.PIPE|thread|' + st.name)
-    rep.floor('C01.PIPE', 30)
+            for p_ in preds:
+                ok = p_ in pos and pos[p_] < pos[name]
+                rep.check(ok, 'C01.PIPE', mi.loc(), '%s: %s after %s' % (label, name, p_), 'in this order', '%s runs before %s has completed' % (name, p_), key='C01.PIPE|%s|%s<%s' % (label, p_, name))
+        for t_ in transformers:
+            if t_ in pos:
+                ok = pos.get('add_parent', 10 ** 6) < pos[t_] and pos.get('add_namespace', 10 ** 6) < pos[t_]
+                rep.check(ok, 'C01.PIPE', mi.loc(), '%s: %s after add_parent, add_namespace' % (label, t_), 'transforms read parent / namespace links', 'transform %s runs before the tree is annotated with parents and namespaces' % t_,
+                          key='C01.PIPE|%s|pre|%s' % (label, t_))
+                late = 'bind_names' in pos and pos[t_] > pos['bind_names']
+                rep.check(not late, 'C01.PIPE', mi.loc(), '%s: %s before bind_names' % (label, t_), 'no tree transform after names were bound',
+                          'the tree transform %s runs after names were bound: nodes it creates or removes are unknown to the binding tables' % t_, key='C01.PIPE|%s|late|%s' % (label, t_))
+        if 'rename_literals' in pos:
+            rep.check(pos['rename_literals'] < pos.get('rename', -1), 'C01.PIPE', mi.loc(), '%s: rename_literals before rename' % label, 'hoisted bindings are named by the renamer',
+                      'literals are hoisted after names have been assigned', key='C01.PIPE|%s|rename_literals<rename' % label)
+        stale = [t[1] for t in r.trace if t[0] == 'stale']
+        rep.check(not stale, 'C01.PIPE', mi.loc(), '%s: every stage receives the tree the previous stage returned' % label, 'module threaded through',
+                  'stage(s) %s are applied to a tree an earlier transform has already replaced: the result of that transform is dropped' % stale, key='C01.PIPE|%s|thread' % label)
+        rep.check(r.outcome[1] == 'MINIFIED', 'C01.PIPE', mi.loc(), '%s: minify returns %r' % (label, r.outcome[1]), 'the text unparse() produced (no shebang in the source)',
+                  'minify returns something other than the printed module: %r' % (r.outcome[1],), key='C01.PIPE|%s|return' % label)
+    rep.floor('C01.PIPE', 40)
 
-    # ---------------- ANNOT typestate
+    # ---------------- ANNOT typestate: effect summaries per stage (what it reads / populates), order from the evaluated runs
+    cg = CallGraph(model)
+    E = Effects(model, cg)
+    summaries = {}
+    for name, (kind, q) in callables.items():
+        if kind == 'stage':
+            t = model.method(q, '__call__')
+            if t is None:
+                continue
+            sm = E.summary(t, q)
+            init = model.method(q, '__init__')
+            if init is not None:
+                sm.merge(E.summary(init, q))
+            summaries[name] = sm
+        else:
+            summaries[name] = E.summary(model.funcs[q], None)
+    r_on = runs['every option on']
+    seq = [t[1] for t in r_on.trace if t[0] in ('stage', 'call')]
+    first = {}
+    for i_, n_ in enumerate(seq):
+        first.setdefault(n_, i_)
     producers = {}
-    for st in P.stages:
+    for n_ in seq:
+        sm = summaries.get(n_)
+        if sm is None:
+            continue
         for a in ANNOTATIONS:
-            if a in st.summary.ann_add and a not in producers and st.facts is not None:
-                producers[a] = st
-    rep.count('annotation_producers', {a: s.name for a, s in producers.items()})
+            if a in sm.ann_add and a not in producers:
+                producers[a] = n_
+    rep.count('annotation_producers', dict(producers))
     n = 0
-    for st in P.stages:
-        if st.facts is None:
+    for n_ in dict.fromkeys(seq):
+        sm = summaries.get(n_)
+        if sm is None:
             continue
         for a in sorted(ANNOTATIONS):
-            if a in st.summary.ann_r and a in producers and producers[a] is not st:
-                prod = producers[a]
+            if a in sm.ann_r and a in producers and producers[a] != n_ and a not in sm.ann_add:
                 n += 1
-                # the attribute must not be read by a stage that can run before its producer
-                before = not did(st.facts, prod.name if prod.kind == 'function' else prod.name + '()')
-                if a in st.summary.ann_add:
-                    continue  # the stage itself (re)builds the attribute for the nodes it creates
-                rep.check(not before, 'C01.ANNOT', mi.loc(st.call), '%s reads .%s (populated by %s)' % (st.name, a, prod.name), 'producer dominates reader',
-                          'stage %s reads the tree annotation .%s before %s has populated it: whatever it tests there is always empty (dead guard)' % (st.name, a, prod.name), key='C01.ANNOT|%s|%s' % (st.name, a))
+                prod = producers[a]
+                rep.check(first[prod] < first[n_], 'C01.ANNOT', mi.loc(), '%s reads .%s (populated by %s)' % (n_, a, prod), 'producer runs first',
+                          'stage %s reads the tree annotation .%s before %s has populated it: whatever it tests there is always empty (dead guard)' % (n_, a, prod), key='C01.ANNOT|%s|%s' % (n_, a))
     rep.floor('C01.ANNOT', 10)
 
-    # ---------------- SELF
+    # ---------------- SELF: unparse() evaluated with the printer, the parser and the comparison answered by the checker
+    from ..absint import Obj as _Obj, _Raise
     up_fi = model.func('python_minifier.unparse')
-    UF = Facts(up_fi.node)
-    for (ret, facts) in UF.returns:
-        ok = facts is not None and any(k.startswith('<did:') and k.endswith('parse>') for (k, p) in facts) and ('<did:compare_ast>', True) in facts
-        rep.check(ok, 'C01.SELF', up_fi.loc(ret), 'return ' + src(ret.value), 're-parse and compare_ast dominate the return', 'unparse can return text that was not re-parsed and compared with the tree', key='C01.SELF|return')
-    cmpc = [c for c in calls(up_fi.node) if src(c.func) == 'compare_ast']
-    for c in cmpc:
-        ok = len(c.args) == 2 and src(c.args[0]) == up_fi.positional[0]
-        rep.check(ok, 'C01.SELF', up_fi.loc(c), src(c), 'compares the tree that was printed with the re-parsed text', 'self check compares the wrong trees', key='C01.SELF|args')
-    for t in [n_ for n_ in walk_own(up_fi.node) if isinstance(n_, ast.Try)]:
-        for h in t.handlers:
-            HF = Facts(body=h.body)
-            rep.check(HF.fallthrough is None and bool(HF.raises), 'C01.SELF', up_fi.loc(h), 'except ' + src(h.type), 'handler re-raises as UnstableMinification', 'a failed self check is swallowed', key='C01.SELF|handler|' + src(h.type))
-    rep.floor('C01.SELF', 4)
+    for (label, parse_answer, compare_answer, want) in (('text re-parses and compares equal', 'ok', 'ok', 'return'), ('printed text does not parse', 'SyntaxError', 'ok', 'raise'),
+                                                       ('re-parsed tree differs', 'ok', 'CompareError', 'raise')):
+        seen = {}
+        module = _Obj('Module', body=[], type_ignores=[])
+        reparsed = _Obj('Module', body=[], type_ignores=[], tag='reparsed')
+
+        def h_printer(I, e, a, kw, env):
+            return _Obj('ModulePrinter', code='TEXT', _code='TEXT')
+
+        def h_parse(I, e, a, kw, env, _pa=parse_answer):
+            seen['parsed'] = a[0] if a else None
+            if _pa != 'ok':
+                raise _Raise(_pa)
+            return reparsed
+
+        def h_compare(I, e, a, kw, env, _ca=compare_answer):
+            seen['compared'] = tuple(a)
+            if _ca != 'ok':
+                raise _Raise(_ca)
+            return None
+        I = Interp(model, 'python_minifier', {'ModulePrinter': h_printer, 'ast.parse': h_parse, 'compare_ast': h_compare, 'python_minifier.ast_compare.compare_ast': h_compare,
+                                               'ast_compare.compare_ast': h_compare})
+        res = I.explore(lambda: I.call_function(up_fi.qual, [module]))
+        outs = {r_[0][0] for r_ in res}
+        if 'abort' in outs:
+            raise AnalysisError('UNDECIDED: unparse() when %s -> %s %s' % (label, [r_[0] for r_ in res][:2], res[0][2][:3]))
+        ok = outs == {want}
+        if want == 'return':
+            ok = ok and all(r_[0][1] == 'TEXT' for r_ in res) and seen.get('parsed') == 'TEXT' and len(seen.get('compared', ())) == 2 and \
+                module in seen['compared'] and reparsed in seen['compared']
+        rep.check(ok, 'C01.SELF', up_fi.loc(), 'unparse() when %s -> %s' % (label, sorted(outs)), 'returns the printed text only after it was re-parsed and compared with the printed tree' if want == 'return' else 'raises',
+                  'unparse() %s when %s (parsed %r, compared %s)' % ('returns normally' if 'return' in outs else 'does not return the text', label, seen.get('parsed'), 'the tree and its re-parse' if len(seen.get('compared', ())) == 2 else seen.get('compared')),
+                  key='C01.SELF|' + label)
+    rep.floor('C01.SELF', 3)
